@@ -153,17 +153,21 @@ pub struct HistoryReport {
 
 /// interpret the history: each op picks one applicable edge of the current image
 pub fn run_history(start: Img, cfgp: &YuvConfig, ops: &[u8]) -> HistoryReport {
-    let mut images = vec![start];
+    let mut images = vec![start.clone()];
     let mut steps = Vec::new();
+    // the current image is handed to the library as the very object it produced / we built (its
+    // allocation, spare capacity and hidden state included); `images` keeps copies for the oracles
+    let mut cur = Some(start);
     for op in ops {
-        let cur = images.last().unwrap();
-        let edges = edges_from(cur.kind());
+        let c = cur.take().unwrap();
+        let edges = edges_from(c.kind());
         let e = edges[*op as usize % edges.len()];
         let p = Params { cfg: *cfgp };
-        match catch(|| apply(e, cur, &p)) {
+        match catch(move || apply_owned(e, c, &p)) {
             Ok(Ok(img)) => {
                 steps.push(Step { edge: e, result: StepResult::Ok(img.kind()) });
-                images.push(img);
+                images.push(img.clone());
+                cur = Some(img);
             }
             Ok(Err(err)) => {
                 steps.push(Step { edge: e, result: StepResult::Err(err) });
